@@ -23,12 +23,46 @@ ID = 'C19'
 NAMESPACE = 'VL.C19'
 LEAN_MODULES = ['VotelibProofs.Props.C19']
 GEN_MODULES = []
-REQUIRED = []
-REQUIRED_COUNTERS = []
-RULE = ''
-NOT_VERIFIED = []
-UNPROVED = []
-
+REQUIRED = ['codec_roundtrip', 'to_from_dict_roundtrip', 'codec_rejects', 'codec_accepts', 'codec_save_ok_iff',
+            'representable_serializable', 'codec_save_or_faithful_partial', 'codec_set_altered_witness',
+            'codec_reserved_key_witness', 'codec_reserved_callable_witness', 'codec_save_or_faithful_witness',
+            'blt_roundtrip', 'blt_error_kinds', 'blt_parse_total_partial', 'blt_parse_total_witness_invalid_operation',
+            'blt_parse_total_witness_value_error', 'blt_parse_total_witness_index_error', 'blt_zero_index_alias_witness',
+            'blt_parse_total_witness', 'blt_fraction_weight_witness']
+REQUIRED_COUNTERS = ['codec_frac', 'codec_dec', 'codec_tuple', 'codec_fset', 'codec_sdict', 'codec_gdict', 'codec_obj', 'codec_callable',
+                     'codec_depth_4', 'unrepresentable', 'hazard_bare_set', 'hazard_reserved_key',
+                     'class_rt', 'class_bad', 'cls_depth_4', 'feat_fraction', 'feat_decimal', 'feat_callable_by_name', 'feat_dict_keyed',
+                     'blt_rt', 'blt_withdrawn', 'blt_withdrawn_first', 'blt_one_candidate', 'blt_title', 'blt_weight_int',
+                     'blt_weight_dec', 'blt_weight_frac', 'blt_person', 'blt_strname', 'blt_empty_ballot',
+                     'blt_text', 'mut_truncate_chars', 'mut_truncate_lines', 'mut_junk_token', 'mut_index_out_of_range',
+                     'mut_zero_inside', 'mut_handmade',
+                     'stv_rt', 'stv_blt_mode', 'stv_own_mode', 'stv_duplicate_initials', 'stv_withdrawn', 'stv_weight_frac', 'stv_weight_dec',
+                     'stv_text', 'mut_header_junk']
+RULE = ('codec: random value trees of depth <= 4 over atoms (None/bool/int up to 10^30/float/str incl. unicode and identifier-like), '
+        'Fraction, Decimal, list, tuple, frozenset, str-keyed and general dicts, objects (Person, PoliticalParty, NoneOfTheAbove, '
+        'AbsoluteThreshold) and callables by name; plus directed streams: an unrepresentable leaf (closure, lambda, same-named local def, '
+        'functools.partial, quota.constant, object(), complex) wrapped at depth <= 3, bare sets, reserved keys. '
+        'class_rt: every class carrying to_dict found by reflection (each at least twice per run), constructor specs nested to depth 4, '
+        '6 generated inputs per object for the outcome comparison, and unrepresentable configurations. '
+        'blt_rt / stv_rt: 0-6 candidates (strings or Person objects, rich printable names, duplicate names for Person), 0-6 ballots without '
+        'shared ranks incl. the empty ballot, int / Decimal / Fraction weights, any subset withdrawn, optional title; STV with and without '
+        'system header (quota, mandatory, random, seats, title). blt_text / stv_text: 30 hand-made texts + 16 kinds of line / token / '
+        'character mutations and truncations of written files (STV: also junk header lines). '
+        'Non-trivial: codec depth >= 1; class saved without error; documents with >= 2 candidates and >= 1 ballot; texts > 8 characters.')
+NOT_VERIFIED = ['lexing of BLT/STV text (strip, split, "#" comments, quotes, str(weight), Decimal(text), str.isdigit): the harness tokenises real '
+                'text with Python\'s own predicates; writer and parser are compared with the token-level model on those token lines',
+                'constructor reflection (simple_serialization, cls(**params)): that every class stores each constructor parameter under its own '
+                'name in a form its constructor accepts is established per class by the class_rt correspondence/oracle only',
+                'get_object name resolution is a parameter (Env) of the model; type names other than dict/Fraction/Decimal/tuple/frozenset '
+                'are answered "unmodelled" and not compared',
+                'str.isidentifier is modelled for ASCII; str(Decimal)/Decimal(str) are the identity on the carried text',
+                'Python equality across numeric types inside sets / dict keys (1 == True == 1.0) — the generator keeps such keys apart',
+                'frozenset iteration order (compared order-free)',
+                'the STV file format (io/stv.py) is not modelled in Lean: round trip and malformed-text behaviour are checked by the oracle only']
+UNPROVED = ['blt_parse_total (false of the current parser: witnesses proved; blt_parse_total_partial + blt_error_kinds hold)',
+            'codec_save_or_faithful (false of the current codec: bare sets, reserved keys; witnesses proved)',
+            'stv_roundtrip, stv_parse_total (STV format not modelled)']
+EXHAUSTIVE = {'thorough': False}
 
 # ------------------------------------------------------------------------------------------------ guards
 def _g(fn, seconds=10):
@@ -850,5 +884,14 @@ def generate(rng, tier):
 
 
 TECHNIQUE = 'Lean 4 proofs about a model of the dict codec and of the BLT writer/parser + differential correspondence with votelib + round-trip oracle over all classes carrying to_dict'
-LEVEL_TEXT = ''
-LEVEL_NOTE = ''
+LEVEL_TEXT = ('The dict codec of persist.py (serialize_value / deserialize_value / from_dict) and the BLT writer and parser (token level) are '
+              'modelled branch by branch in Lean. Proved for all inputs: every representable value reloads to itself (codec_roundtrip, also through '
+              'to_dict/from_dict), saving fails exactly on values containing something without a dict spelling (codec_rejects / codec_save_ok_iff), '
+              'every well-formed BLT document reloads unchanged (blt_roundtrip: seats, names, any withdrawn subset, weights, title), the BLT parser '
+              'raises only ParseError or one of three named foreign exceptions (blt_error_kinds) and only ParseError/IndexError on lexically sane '
+              'text (blt_parse_total_partial). The full statements are false of the current tree and their negations are proved on concrete '
+              'witnesses (bare set / reserved key in the codec; InvalidOperation, ValueError, IndexError and a silent index alias in the BLT parser). '
+              'All 109 classes carrying to_dict, the STV format and text lexing are covered by the differential correspondence and a direct '
+              'round-trip / outcome / exception-type oracle on every run.')
+LEVEL_NOTE = ('Trusted: Lean kernel + propext/Classical.choice/Quot.sound; the correspondence harness (generators, tokeniser, canonicalisation); '
+              'constructor reflection, text lexing and the STV format are validated by testing only (bounded by the generator), not proved.')
